@@ -27,7 +27,7 @@ package rules
 //@   requires f.defaultRule == nil && !f.defaultBacktracking
 //@   ensures ret0 == nil ==> (f.defaultRule == nil ==> !f.defaultBacktracking)
 //@   ensures ret0 == nil && ruleConfig == nil ==> f.defaultRule == nil
-//@   ensures ret0 == nil && ruleConfig != nil ==> f.defaultRule != nil && f.defaultBacktracking == old(ruleConfig.BacktrackingEnabled)
+//@   ensures ret0 == nil && ruleConfig != nil ==> f.defaultRule != nil && f.defaultBacktracking == ruleConfig.BacktrackingEnabled
 //@   ensures ret0 == nil && ruleConfig != nil ==> f.defaultRule.isDefault && f.defaultRule.slashesHandling == config2.EncodedSlashesOff && len(f.defaultRule.sc) > 0
 //@   ensures ret0 == nil && ruleConfig != nil ==> f.defaultRule.sc == pipe.ret0[old(pipe.n)] && f.defaultRule.sh == pipe.ret1[old(pipe.n)] && f.defaultRule.fi == pipe.ret2[old(pipe.n)] && f.defaultRule.eh == onerr.ret0[old(onerr.n)]
 
